@@ -223,10 +223,30 @@ class Program:
                         stmts[i] = ('assign', st[1], ('closure', span, newops))
         return fn
 
+    EXT_PREFIXES = ('lsp_types', 'pulldown_cmark', 'std', 'core', 'alloc', 'serde_json', 'lsp_server', 'url', 'relative_path', 'itertools', 'rayon')
+
+    def bare_variant(self, vname):
+        """an enum variant printed without its enum path (glob imports): unique lookup over all tables"""
+        c = getattr(self, '_bare', None)
+        if c is None:
+            c = self._bare = {}
+            for tt in self.tt:
+                for full, variants in tt.enums.items():
+                    for i, (vn, kind, fl) in enumerate(variants):
+                        c.setdefault(vn, []).append((full, i))
+        hits = c.get(vname, [])
+        return hits[0] if len(hits) == 1 else None
+
+    def tables_for(self, printed):
+        first = printed.strip().lstrip('&').split('::')[0]
+        if first in self.EXT_PREFIXES:
+            return [tt for tt in self.tt if getattr(tt, 'prefix', None) == first]
+        return [tt for tt in self.tt if getattr(tt, 'prefix', None) is None] + [tt for tt in self.tt if getattr(tt, 'prefix', None) is not None]
+
     def enum_info(self, printed):
         r = self.enum_cache.get(printed)
         if r is None:
-            for tt in self.tt:
+            for tt in self.tables_for(printed):
                 full = tt.resolve(printed)
                 if full and full in tt.enums:
                     r = (full, tt.enums[full]); break
@@ -237,7 +257,7 @@ class Program:
         return r
 
     def struct_fields(self, printed):
-        for tt in self.tt:
+        for tt in self.tables_for(printed):
             full = tt.resolve(printed)
             if full and full in tt.structs:
                 return full, tt.structs[full]
@@ -261,7 +281,7 @@ class Program:
     def full_type(self, printed):
         printed = strip_generics(printed).lstrip('&').strip()
         printed = re.sub(r"^('\w+ )?(mut )?", '', printed)
-        for tt in self.tt:
+        for tt in self.tables_for(printed):
             r = tt.resolve(printed)
             if r:
                 return r
@@ -960,6 +980,9 @@ class Exec:
                         return Enum(efull, i, vn, vals)
                 raise Unsupported('variant %s of %s' % (vn, ep))
         if '::' not in path:
+            hit = prog.bare_variant(path)
+            if hit is not None:
+                return Enum(hit[0], hit[1], path, vals)
             if path in ('Less', 'Equal', 'Greater'):
                 return ordering({'Less': -1, 'Equal': 0, 'Greater': 1}[path])
             if path in ('None', 'Some'):
@@ -1191,5 +1214,5 @@ def ordering(c):
 class LazyEnum:
     pass
 
-EXTERNAL_ENUMS = {}
+EXTERNAL_ENUMS = {'Value': ['Null', 'Bool', 'Number', 'String', 'Array', 'Object']}
 DERIVED_NATIVE = {'Clone', 'PartialEq', 'Eq', 'PartialOrd', 'Ord', 'Hash', 'Debug'}
